@@ -36,7 +36,7 @@ def verify_contracts(ctx, world, contracts, replayers=None, theory="int"):
             if rp is not None:
                 replay = (lambda model, rp=rp, o=o, c=c: rp(model, o, c))
             ctx.vc(o.name, fq, to_smt2(o), theory=theory, model_vars=mv, replay=replay,
-                   probe=(o.kind == "probe"), kind=o.kind, key=getattr(c, "finding_key", lambda o: None)(o) or o.name)
+                   probe=(o.kind == "probe"), kind=("path-probe" if o.kind == "probe" else o.kind), key=getattr(c, "finding_key", lambda o: None)(o) or o.name)
     ctx.trusted.extend(sorted(world.speclib.used))
 
 
